@@ -285,8 +285,9 @@ def check_property(prop, tier, seed, extra_parts=None):
         ],
         'wall_s': round(time.time() - t0, 2), 'violations': len(viol) + (1 if (model or {}).get('violation') else 0),
     }
-    os.makedirs(os.path.join(VERIF, 'evidence'), exist_ok=True)
-    json.dump(ev, open(os.path.join(VERIF, 'evidence', prop + '.json'), 'w'), indent=1, default=str)
+    if not os.environ.get('VERIF_NO_EVIDENCE'):
+        os.makedirs(os.path.join(VERIF, 'evidence'), exist_ok=True)
+        json.dump(ev, open(os.path.join(VERIF, 'evidence', prop + '.json'), 'w'), indent=1, default=str)
     print('%s %s: %d executions, %d trace lines validated by TLC, %d distinct non-trivial, %d unexplained witnesses, wall %.1fs' % (
         prop, tier, len(scns), res['lines'], len(nontrivial), sum(len(v) for v in viol.values()), time.time() - t0))
     return rc
